@@ -16,7 +16,7 @@ RULE = {
     "C15": "texts: AST-generated RISC-V and TOY programs with 1-3 injected lexical/structural faults (hostile numeric literals in every literal position, unknown labels/variables/directives, duplicated or misplaced segments, declarations in .text, instructions in .data, dropped commas, truncated lines, over-long programs, huge .zero), plus token soups; "
     "run-time: faulting programs in both pipeline modes. every outcome is classified. non-trivial = distinct (fault kind, outcome class) pairs and distinct faulting texts that raised; distinct by hash of the text.",
 }
-ASSUMPTIONS = {"C15": ["'terminates' is restated as: returns within a 20 s watchdog per text (watchdog firing = inconclusive)", "line numbers are judged against text.splitlines(); the line text of the exception is recorded as a diagnostic only"]}
+ASSUMPTIONS = {"C15": ["'terminates' is restated as: returns within 30 s of CPU time per text (watchdog firing = inconclusive)", "line numbers are judged against text.splitlines(); the line text of the exception is recorded as a diagnostic only"]}
 REQUIRED = {"C15": ["rv_texts", "toy_texts", "parser_exceptions", "loads_ok", "memory_size_or_address_errors", "soups", "runtime_faults_single", "runtime_faults_five", "hostile_literals_injected", "line_numbers_checked", "runtime_cases_with_cache", "failing_address_footprints_checked"]}
 
 HOSTILE = ["010", "-01", "00", "007", "0x", "0b", "0b2", "0X1", "0B1", "1e3", "1_0", "1_000", "１２", "١٢", "123456789012345678901234567890", "-123456789012345678901234567890", "+5", "--5", "0x-5", "5-", "0xg", "1.5", "''", "0x1_0", "0o17", "0b", "-", "0b102", "09", "-0", "-00", "0x00000000000000000000000000001", "1 2", "²", "0٠"]
@@ -47,17 +47,18 @@ def classify_load(kind, text, res, case, fault_kinds):
     else:
         sim = make_riscv("single")
     nlines = len(text.splitlines())
-    signal.signal(signal.SIGALRM, _alarm)
-    signal.alarm(20)
+    # CPU time of this process, not wall-clock time: a loaded machine cannot make the watchdog fire
+    signal.signal(signal.SIGPROF, _alarm)
+    signal.setitimer(signal.ITIMER_PROF, 30)
     try:
         try:
             sim.load_program(text)
             out = "ok"
             res.count("loads_ok")
         finally:
-            signal.alarm(0)
+            signal.setitimer(signal.ITIMER_PROF, 0)
     except Watchdog:
-        res.inconclusive.append("load_program did not return within the 20 s watchdog on a %d-line text" % nlines)
+        res.inconclusive.append("load_program did not return within 30 s of CPU time on a %d-line text" % nlines)
         return "watchdog"
     except ParserException as e:
         out = type(e).__name__
